@@ -44,6 +44,20 @@ Theorem C09_empty_plan_accepts : forall c p, c = @nil resp ->
 Proof. exact plan_accepting. Qed.
 Print Assumptions C09_empty_plan_accepts.
 
+(* (a) for the harness's scripted callback with an empty plan (no abstract hypothesis left) *)
+Theorem C09_blocks_exact_scripted : forall bs bibl chunks pl' res,
+  (0 < bs)%nat -> session plan_cb bs bibl [] chunks = (pl', res) ->
+  let data := concat chunks in
+  let r := (length data mod bs)%nat in
+  exists blocks last,
+    flat res = blocks ++ last /\ Forall (full bs) blocks /\ length blocks = (length data / bs)%nat /\
+    (r = 0%nat -> last = []) /\
+    (r <> 0%nat -> exists i, last = [i] /\ i_off i = (r + padlen bs bibl r)%nat /\
+                             i_ret i = Z.of_nat (i_off i)) /\
+    all_ok res /\ acc (flat res) = data ++ zeros (padlen bs bibl r) /\ pl' = [].
+Proof. exact session_acc_plan. Qed.
+Print Assumptions C09_blocks_exact_scripted.
+
 (* the bytes_in_last_block rule (archive_write.c:515-529): a pending last block of 0 < fill <= bs
    bytes goes out with fill + padlen bytes = bs when bytes_in_last_block <= 0, otherwise fill rounded
    up to the next multiple of bytes_in_last_block, capped at bs.  The C expression cannot overflow. *)
